@@ -308,7 +308,7 @@ func runStoreCase(kind string) func(rng *rand.Rand, idx int, tier string) Case {
 	return func(rng *rand.Rand, idx int, tier string) Case {
 		c := newStoreCase(rng, kind)
 		weird := true // zones with unusual names (empty, lower-case, long, with a space) are valid inputs too
-		if idx == 0 {  // directed: cross 9 -> 10 -> 11 appends, read chains with every small limit, resume from event offsets
+		if idx == 0 { // directed: cross 9 -> 10 -> 11 appends, read chains with every small limit, resume from event offsets
 			for i := 0; i < 12; i++ {
 				c.doAppend(rng, 0, weird)
 			}
